@@ -47,8 +47,19 @@ def _run(chunk):
                 {"key": f"{next((x for x in case[:2] if isinstance(x, str) and x not in ('rank', 'score')), '')}:no-termination-within-{CASE_TIMEOUT}s-cpu",
                  "what": f"run did not terminate within {CASE_TIMEOUT} CPU seconds (bounded evidence of non-termination) on {case!r}"[:600],
                  "input": repr(case)[:600]}]})
-        except Exception as e:  # harness error, never a verdict
-            out.append({"harness_error": f"{e!r}\n{traceback.format_exc(limit=5)}", "case": repr(case)[:400]})
+        except Exception as e:
+            tbk = traceback.extract_tb(e.__traceback__)
+            inner = tbk[-1] if tbk else None
+            in_repo = inner is not None and "/votekit/" in inner.filename and "/verif/" not in inner.filename
+            lib_under_repo = any("/votekit/" in f.filename for f in tbk) and inner is not None and "/verif/" not in inner.filename
+            if in_repo or lib_under_repo:
+                # an exception escaping the code under check on an input the check considers valid
+                site = f"{inner.filename.split('/')[-1]}:{inner.name}"
+                out.append({"evals": 1, "key": None, "nontrivial": False, "violations": [
+                    {"key": f"{next((x for x in case[:2] if isinstance(x, str)), '')}:unexpected-{type(e).__name__}@{site}",
+                     "what": f"{type(e).__name__}: {e} escaped the code under check on {case!r}"[:700], "input": repr(case)[:600]}]})
+            else:  # harness error, never a verdict
+                out.append({"harness_error": f"{e!r}\n{traceback.format_exc(limit=5)}", "case": repr(case)[:400]})
     return out
 
 
